@@ -211,11 +211,26 @@ class C11Retention(Base):
     def gt_outputs(self, name, outputs):
         return set(outputs)
 
+    def exempt(self, tid):
+        # outputs set by hand / removals: not this oracle's business;
+        # a manual *trigger* does not change what completes the task
+        return tid in self.touched
+
     def on_event(self, ev):
+        if ev['k'] == 'CMD' and ev['cmd'] in ('set', 'remove_tasks',
+                                               'kill_tasks'):
+            from vlib.e1.monitors import match_ids
+            if not hasattr(self, 'touched'):
+                self.touched = set()
+            self.touched |= match_ids(ev['args'].get('tasks') or [],
+                                      ev.get('pool') or [], self.gt)
+            return
+        if not hasattr(self, 'touched'):
+            self.touched = set()
         if ev['k'] != 'POOL_REMOVE':
             return
         t = ev['task']
-        if t['status'] not in FINAL or t['id'] in self.drv.ledger.manual:
+        if t['status'] not in FINAL or self.exempt(t['id']):
             return
         if ev.get('reason') not in (None, 'completed'):
             return
@@ -232,8 +247,10 @@ class C11Retention(Base):
     def after_iter(self, drv, pool_snap):
         for t in pool_snap:
             if t['status'] in FINAL and t['name'] in self.gt['tasks'] \
-                    and t['id'] not in drv.ledger.manual:
+                    and not self.exempt(t['id']):
                 self.n['retained_checked'] += 1
+                if t['flow_wait']:
+                    self.n['retained_checked_flow_wait'] += 1
                 if wfgen.is_complete(self.gt, t['name'], set(t['outputs'])):
                     self.v('complete-task-retained',
                            f'{t["id"]} ({t["status"]}) is still in the pool '
